@@ -283,3 +283,24 @@ def validate_ins(histories, scratch: Path, tag="ins"):
              "samples_checked": sum(e["tr"]["n"] + e["iid"]["n"] for p in packed for e in p
                                     if e["ev"] in ("ins_iter", "ins_final", "resume"))}
     return records, stats, packed
+
+
+def validate_trainings(histories, scratch: Path, tag="train"):
+    """Flow trainings of the histories as one trace for TraceTraining.tla. Returns (mismatch texts, n, states)."""
+    evs = []
+    for h in histories:
+        for e in load_events([f for f in h["events"] if os.path.exists(f)]):
+            if e["ev"] == "train":
+                evs.append({k: e[k] for k in ("losses", "max_epochs", "patience", "validate", "restored")})
+    if not evs:
+        return [], 0, 0
+    tf = scratch / f"trace_{tag}.json"
+    tf.write_text(json.dumps({"ev": evs}))
+    cfg = scratch / f"trace_{tag}.cfg"
+    cfg.write_text("SPECIFICATION TraceSpec\nCHECK_DEADLOCK FALSE\n")
+    res = run_tlc("TraceTraining", str(cfg), workers=1, metadir=scratch / f"mt_{tag}",
+                  env={"TRACE_FILE": str(tf)}, collect_prefix="TR", timeout=1200)
+    if not res.ok:
+        return [f"TraceTraining could not be run: {res.error[:150]}"], len(evs), 0
+    out = [f"training event {r['l']}: {r['c']} ({evs[r['l'] - 1]})" for r in res.printed if r["k"] == "M"]
+    return out, len(evs), res.distinct
